@@ -8,7 +8,7 @@ const staticNote = "Static analysis of /repo's current source (type-checked synt
 
 func init() {
 	register("C01", propMeta{
-		Explanation: staticNote + "Decides the code-shape parts of convergence: (R1/R2) the merge decision table is a strict order on timestamps with an order-independent tie-break (table algebra over all ordering cells); (R3) the dump is complete: every non-private DBI reaches readDBI and every cursor entry is appended with key/value/timestamp/flags split out of the header, markers included; (R4) every snapshot DBI is applied through strategy.Update, every key through Get→Merge→setNewVal; (R5) in shadow mode the capture precedes both the dump and the projection. Further (R7): raw-read mode is only ever switched on in the read-only snapshot transaction, and snapshot names sort chronologically (UTC, fixed width), because peers take the last name of an instance as its newest; the mirror loops visit every DBI unconditionally. The walks over the environment's DBI names (dump) and over the snapshot's DBIs (apply) reach a successful return only behind the end of that loop (no `return nil`/`break` inside that would skip the remaining DBIs while the transaction commits); strategy.Update ends successfully only on io.EOF.",
+		Explanation: staticNote + "Decides the code-shape parts of convergence: (R1/R2) the merge decision table is a strict order on timestamps with an order-independent tie-break (table algebra over all ordering cells); (R3) the dump is complete: every non-private DBI reaches readDBI and every cursor entry is appended with key/value/timestamp/flags split out of the header, markers included; (R4) every snapshot DBI is applied through strategy.Update, every key through Get→Merge→setNewVal; (R5) in shadow mode the capture precedes both the dump and the projection. Further (R7): raw-read mode is only ever switched on in the read-only snapshot transaction, and snapshot names sort chronologically (UTC, fixed width), because peers take the last name of an instance as its newest; the mirror loops visit every DBI unconditionally. The walks over the environment's DBI names (dump) and over the snapshot's DBIs (apply) reach a successful return only behind the end of that loop (no `return nil`/`break` inside that would skip the remaining DBIs while the transaction commits); strategy.Update ends successfully only on io.EOF. Every per-DBI operation of the dump walk is on an element of ReadDBINames called on this transaction in this call (no cached listing); the iterators' Next hands over exactly one entry per call; a failed upload is fatal to the loop.",
 		NotDecided:  "Actual convergence over histories, delivery orders and clocks; the bucket; LMDB itself.",
 		Assumptions: []string{"convergence of a join-semilattice merge applied to complete state dumps (standard CRDT argument) is not re-proved here", "hooks (FilterReadDBI etc.) are nil by default"},
 	}, func(c *Check) {
@@ -47,7 +47,7 @@ func init() {
 	})
 
 	register("C02", propMeta{
-		Explanation: staticNote + "Extracts the complete decision table of the merge routine (every SSA path of NativeIterator.Merge with addHeader and all small helpers inlined: conditions over timestamps, values, flags, format version, cutoff; outcomes keep-the-parameter / drop / assembled header+value) and checks the algebraic laws of the property on that table for representatives of every cell of the finite ordering domain (timestamps incl. 0, values incl. empty, deleted flag, format versions 1..3, raw flag bits, every constant the table compares with). Only the extracted conditions and outcome terms are interpreted. Adequacy (the routine touches these quantities only through evaluable comparisons) is checked: any unrecognised use fails as undecided. Further (R8): strategy.Update merges every key the iterator yields against exactly the value stored under it in the same transaction (no path bypasses the lookup) and applies only that decision. Every KV.Unmarshal decodes into a zero KV (fresh local or overwritten with the zero value, followed through pointer parameters to the callers); remote entries are merged with the iterator arguments of the load (no default timestamp).",
+		Explanation: staticNote + "Extracts the complete decision table of the merge routine (every SSA path of NativeIterator.Merge with addHeader and all small helpers inlined: conditions over timestamps, values, flags, format version, cutoff; outcomes keep-the-parameter / drop / assembled header+value) and checks the algebraic laws of the property on that table for representatives of every cell of the finite ordering domain (timestamps incl. 0, values incl. empty, deleted flag, format versions 1..3, raw flag bits, every constant the table compares with). Only the extracted conditions and outcome terms are interpreted. Adequacy (the routine touches these quantities only through evaluable comparisons) is checked: any unrecognised use fails as undecided. Further (R8): strategy.Update merges every key the iterator yields against exactly the value stored under it in the same transaction (no path bypasses the lookup) and applies only that decision. Every KV.Unmarshal decodes into a zero KV (fresh local or overwritten with the zero value, followed through pointer parameters to the callers); remote entries are merged with the iterator arguments of the load (no default timestamp). The iterators' Next reads exactly one entry per call, remembers it as current and returns its key.",
 		NotDecided:  "LMDB writes themselves; stored values whose header does not parse (error path); deleted entries carrying a value (outside the schema); commutativity across a non-zero stale-marker cutoff (documented retention assumption; the drop rule itself is checked).",
 		Assumptions: []string{"header.Parse returns what PutBasic wrote (structure checked under C14)", "deleted entries carry an empty value (schema)"},
 	}, func(c *Check) {
@@ -89,7 +89,7 @@ func init() {
 	})
 
 	register("C03", propMeta{
-		Explanation: staticNote + "Decides the structural conditions under which a committed local write can be destroyed: (R1) the projection shadowToMain is only reached after mainToShadow ran in the same transaction or with localChanged == false, and localChanged ≡ lastTxnID < txn.ID()-1 on the caller's watermark; (R2) the transaction id reported as synced must come from inside the transaction (reports the known check-then-act on env.Info()); (R3) the projection's delete decision must depend on the deleted flag (reports the known empty-value defect); (R4) in native mode the load transaction mutates LMDB only through strategy.Update/OpenDBI(Create) and the dump is a read-only view; (R5) at start-up with data, the capture runs before the first load. Further (R8/R9): in the merge table a stored version is replaced or removed only by an LWW winner, for every stale-marker cutoff, and every key is merged against exactly its stored value; the two-sided walk visits every stored key also for an empty input; remote entries are merged with default timestamp 0 and the load-time cutoff. The capture pass walks every DBI name to the end before it can return successfully.",
+		Explanation: staticNote + "Decides the structural conditions under which a committed local write can be destroyed: (R1) the projection shadowToMain is only reached after mainToShadow ran in the same transaction or with localChanged == false, and localChanged ≡ lastTxnID < txn.ID()-1 on the caller's watermark; (R2) the transaction id reported as synced must come from inside the transaction (reports the known check-then-act on env.Info()); (R3) the projection's delete decision must depend on the deleted flag (reports the known empty-value defect); (R4) in native mode the load transaction mutates LMDB only through strategy.Update/OpenDBI(Create) and the dump is a read-only view; (R5) at start-up with data, the capture runs before the first load. Further (R8/R9): in the merge table a stored version is replaced or removed only by an LWW winner, for every stale-marker cutoff, and every key is merged against exactly its stored value; the two-sided walk visits every stored key also for an empty input; remote entries are merged with default timestamp 0 and the load-time cutoff. The capture pass walks every DBI name to the end before it can return successfully. In shadow mode every successful end of the load body ran shadowToMain.",
 		NotDecided:  "The interleavings themselves: no schedule is explored.",
 		Assumptions: []string{"LMDB: empty write transactions are not recorded; txn.ID() semantics"},
 	}, func(c *Check) {
@@ -273,7 +273,7 @@ func init() {
 	})
 
 	register("C18", propMeta{
-		Explanation: staticNote + "Decides all-or-nothing merging structurally: (R1) LoadOnce runs one write transaction; nothing reachable from its body starts another; every LMDB call in it gets the body's txn; (R2) every error of the body, the mirror passes, the strategies and the iterator reaches the caller as an error (so LMDB aborts); (R3) version gates: accepted exactly when fv != 0 ∧ fv >= Compat ∧ compat <= Current ∧ txn id != 0; (R4) in format version 1 an empty value denotes a deletion (merge table with fv = 1); (R5) private DBIs are ignored and ValidateTransform succeeds before the DBI is touched; its table is exact; (R6) the application DBI is created only from a v3+ snapshot or with explicit override flags; (R7) cancellation aborts. Further: DBI.Next reports io.EOF only behind cursor >= len(data), so a DBI is never merged partially with success reported.",
+		Explanation: staticNote + "Decides all-or-nothing merging structurally: (R1) LoadOnce runs one write transaction; nothing reachable from its body starts another; every LMDB call in it gets the body's txn; (R2) every error of the body, the mirror passes, the strategies and the iterator reaches the caller as an error (so LMDB aborts); (R3) version gates: accepted exactly when fv != 0 ∧ fv >= Compat ∧ compat <= Current ∧ txn id != 0; (R4) in format version 1 an empty value denotes a deletion (merge table with fv = 1); (R5) private DBIs are ignored and ValidateTransform succeeds before the DBI is touched; its table is exact; (R6) the application DBI is created only from a v3+ snapshot or with explicit override flags; (R7) cancellation aborts. Further: DBI.Next reports io.EOF only behind cursor >= len(data), so a DBI is never merged partially with success reported. The projection is unconditional in shadow mode; a failing callback makes DBI.Map return an error.",
 		NotDecided:  "Map-full at arbitrary points (LMDB abort semantics trusted given R1/R2); concurrent readers (LMDB MVCC).",
 		Assumptions: []string{"LMDB aborts a write transaction whose callback returns an error"},
 	}, func(c *Check) {
@@ -402,7 +402,7 @@ func init() {
 
 func init() {
 	register("C20", propMeta{
-		Explanation: staticNote + "Extracts the encode and decode tables of the dupsort hack and interprets them (no code is run) on representative (key, value) pairs chosen from the statement (zero bytes next to the separator, values longer than the room left, boundary lengths, maximal keys): (R1) constant relations 511 / 255 / 4 / 1; (R2/R3) decode(encode(kv)) == kv on every cell, shadow key length <= 511, empty/oversized keys and malformed shadow keys refused, no index out of range; (R4) while encoding a DBI an equal or descending shadow key is refused; (R5) the transform is recorded when dumping and validated before merging (table); (R6) encode iff dupsort in the capture, decode+EmptyPut iff dupsort in the projection; native schema excludes the hack. Further: the shadow DBI is created with the allowed flag mask applied last. The refill loop of EmptyPut ends successfully only when the iterator reported io.EOF (a tombstone must not end it).",
+		Explanation: staticNote + "Extracts the encode and decode tables of the dupsort hack and interprets them (no code is run) on representative (key, value) pairs chosen from the statement (zero bytes next to the separator, values longer than the room left, boundary lengths, maximal keys): (R1) constant relations 511 / 255 / 4 / 1; (R2/R3) decode(encode(kv)) == kv on every cell, shadow key length <= 511, empty/oversized keys and malformed shadow keys refused, no index out of range; (R4) while encoding a DBI an equal or descending shadow key is refused; (R5) the transform is recorded when dumping and validated before merging (table); (R6) encode iff dupsort in the capture, decode+EmptyPut iff dupsort in the projection; native schema excludes the hack. Further: the shadow DBI is created with the allowed flag mask applied last. The refill loop of EmptyPut ends successfully only when the iterator reported io.EOF (a tombstone must not end it). A failing callback makes DBI.Map (and with it the encode and decode passes) return an error.",
 		NotDecided:  "Reversibility over all byte strings (only the representative cells are interpreted); the full mirror cycle on real LMDB.",
 		Assumptions: []string{"the representative lengths cover the boundaries of the extracted conditions (every constant in the tables is hit on both sides)"},
 	}, func(c *Check) {
@@ -424,7 +424,7 @@ func init() {
 	})
 
 	register("C11", propMeta{
-		Explanation: staticNote + "Decides the mirror's decision tables and plumbing: (R1) capture table: an unchanged application value keeps its entry and timestamp, a changed or new one is stamped with the detection time; (R2) a key missing from the application DBI becomes a marker (Clean), via the IterUpdate table; (R3) the projection writes exactly the shadow value and deletes the key of a marker (reports the known empty-value defect); (R4) key order: IterUpdate derives integerKey from the DBI's MDB_INTEGERKEY flag, the comparator is selected by it, shadow DBIs are created with that flag from the application DBI (both creation sites); (R5) the sortedness check never rejects a valid first key; (R6) the detection time is taken inside the write transaction; (R7) both passes visit every non-private DBI; raw-read mode is restored after a dump. Further (R8): raw-read mode is never on in a write transaction (complete set of writers of Txn.RawRead enumerated); the endianness probe stores true exactly under the low-byte-first outcome. Both mirror loops are left successfully only at their end (COLLECTION-EXHAUSTED).",
+		Explanation: staticNote + "Decides the mirror's decision tables and plumbing: (R1) capture table: an unchanged application value keeps its entry and timestamp, a changed or new one is stamped with the detection time; (R2) a key missing from the application DBI becomes a marker (Clean), via the IterUpdate table; (R3) the projection writes exactly the shadow value and deletes the key of a marker (reports the known empty-value defect); (R4) key order: IterUpdate derives integerKey from the DBI's MDB_INTEGERKEY flag, the comparator is selected by it, shadow DBIs are created with that flag from the application DBI (both creation sites); (R5) the sortedness check never rejects a valid first key; (R6) the detection time is taken inside the write transaction; (R7) both passes visit every non-private DBI; raw-read mode is restored after a dump. Further (R8): raw-read mode is never on in a write transaction (complete set of writers of Txn.RawRead enumerated); the endianness probe stores true exactly under the low-byte-first outcome. Both mirror loops are left successfully only at their end (COLLECTION-EXHAUSTED). The capture and projection walks use a listing read from this transaction in this call; in shadow mode every successful end of the load body ran shadowToMain.",
 		NotDecided:  "The mirror's extensional equality with a reference over all contents; changes made while the syncer is down.",
 		Assumptions: []string{"instances share one monotone clock (documented)"},
 	}, func(c *Check) {
@@ -505,7 +505,7 @@ func init() {
 
 func init() {
 	register("C15", propMeta{
-		Explanation: staticNote + "Decides the structural conditions of round-tripping, chronologically sorting names: (R1) the time layout tokenises to fixed-width zero-padded numeric fields, most significant first, down to nanoseconds; dotIndex is its '.'; NameTimestamp is ts.UTC().Format(layout) with '.'→'-'; (R2) BuildName writes database, instance, timestamp, generation, extras joined by \"__\", then '.' and the extension; ParseName cuts the extension at the first '.', requires a registered extension, splits on the same \"__\" into the same four fields in the same order, checks length and '-' and parses with the same layout; (R3) instanceID() returns reUnsafe.ReplaceAllString(n, \"-\") on every path and reUnsafe (parsed with regexp/syntax) replaces '_', '.', and everything outside [a-zA-Z0-9-]; (R4) receiver and cleaner list name+\"__\" and consider only successfully parsed names of kind snapshot. Further: Timestamp.Time is uniformly time.Unix(0, int64(ts)).",
+		Explanation: staticNote + "Decides the structural conditions of round-tripping, chronologically sorting names: (R1) the time layout tokenises to fixed-width zero-padded numeric fields, most significant first, down to nanoseconds; dotIndex is its '.'; NameTimestamp is ts.UTC().Format(layout) with '.'→'-'; (R2) BuildName writes database, instance, timestamp, generation, extras joined by \"__\", then '.' and the extension; ParseName cuts the extension at the first '.', requires a registered extension, splits on the same \"__\" into the same four fields in the same order, checks length and '-' and parses with the same layout; (R3) instanceID() returns reUnsafe.ReplaceAllString(n, \"-\") on every path and reUnsafe (parsed with regexp/syntax) replaces '_', '.', and everything outside [a-zA-Z0-9-]; (R4) receiver and cleaner list name+\"__\" and consider only successfully parsed names of kind snapshot. Further: Timestamp.Time is uniformly time.Unix(0, int64(ts)). The listing returned by List is never sorted, reversed or written to before it is scanned, also not through a helper that receives a copy of the slice header.",
 		NotDecided:  "time.Format/Parse behaviour over 1970–2262; injectivity beyond field order; database names containing the separator (documented alphabet).",
 		Assumptions: []string{"database and sanitised instance names contain neither \"__\" nor '.' (documented safe alphabet)"},
 	}, func(c *Check) {
@@ -528,7 +528,7 @@ func init() {
 
 func init() {
 	register("C17", propMeta{
-		Explanation: staticNote + "Decides lock discipline and cancellation structurally: (R1) guarded-by: every access to the fields the repository documents as mutex-protected happens with the mutex of the same object held (all functions of the concurrent packages, helpers inlined two levels so locks held by callers count); (R2) the cleaner's committed map is a private copy, never an alias of the sync loop's map; (R3) no blocking operation (channel operation without default, storage call, sleep, token acquire, publish) while a mutex is held — reports the known Publish-under-lock defect; sends to and closes of subscriber channels are serialised by the topic's mutex; (R4) nested lock acquisitions are acyclic; (R5) GetGlobal returns the storage only when non-nil and panics only if still nil after waiting; (R6) every unbounded loop of the goroutine bodies passes a cancellation point on every cycle; (R7) Token.Release is idempotent under its mutex. Further (R8-R10): static lockset over all fields of the component struct types and package-level variables — written after construction, reachable from goroutines not ordered by start-up (VTA call graph, go statements as roots) ⇒ a common lock at every access; a locally built map is not modified after publication except under the publishing lock; a function that subscribes and keeps the subscription closes it on every path out; subscriber channels are closed at most once; readiness of the global storage is a broadcast; SleepContext is a cancellation point on every path. A deferred wait for started goroutines is deferred before (runs after) the cancellation of their context; Publish reaches every subscriber.",
+		Explanation: staticNote + "Decides lock discipline and cancellation structurally: (R1) guarded-by: every access to the fields the repository documents as mutex-protected happens with the mutex of the same object held (all functions of the concurrent packages, helpers inlined two levels so locks held by callers count); (R2) the cleaner's committed map is a private copy, never an alias of the sync loop's map; (R3) no blocking operation (channel operation without default, storage call, sleep, token acquire, publish) while a mutex is held — reports the known Publish-under-lock defect; sends to and closes of subscriber channels are serialised by the topic's mutex; (R4) nested lock acquisitions are acyclic; (R5) GetGlobal returns the storage only when non-nil and panics only if still nil after waiting; (R6) every unbounded loop of the goroutine bodies passes a cancellation point on every cycle; (R7) Token.Release is idempotent under its mutex. Further (R8-R10): static lockset over all fields of the component struct types and package-level variables — written after construction, reachable from goroutines not ordered by start-up (VTA call graph, go statements as roots) ⇒ a common lock at every access; a locally built map is not modified after publication except under the publishing lock; a function that subscribes and keeps the subscription closes it on every path out; subscriber channels are closed at most once; readiness of the global storage is a broadcast; SleepContext is a cancellation point on every path. A deferred wait for started goroutines is deferred before (runs after) the cancellation of their context; Publish reaches every subscriber. A map that is modified in a call and then installed in a shared object or handed to subscribers is made in that call on every path (no refilled map that was published before); every token acquired in LoadOnce is released or handed on.",
 		NotDecided:  "Races on memory reached through slices/maps handed between goroutines other than published maps, hand-over discipline of the snapshot message types, the command-line layer; third-party internals; the schedules themselves.",
 		Assumptions: []string{"one goroutine per started root and object (one Run per Downloader/Receiver/cleaner/sweeper); objects of the snapshot message types are owned by one goroutine at a time"},
 	}, func(c *Check) {
@@ -560,7 +560,7 @@ func init() {
 
 func init() {
 	register("C07", propMeta{
-		Explanation: staticNote + "Decides the structural conditions of a lossless, wire-compatible codec: (R1) for KV, DBI, Snapshot and Meta the (field number, wire type) tables of the generated reference schema (struct tags), of the Field* constants, of the hand-written writers (EncodeTag sites) and of the hand-written readers (switch cases with expectWT / get* helpers) are equal; (R2) the size phase of DBI.Append declares exactly what the emit phase writes and reserves exactly header+message, interpreted on the extracted events for lengths across every varint boundary, and the buffer has capacity after growth; (R3) every decode/skip call in the cursor parsers reads from the buffer sliced at the advancing cursor; (R4) unknown fields are skipped by wire type in every reader; (R5) decoders merge into their receiver and never reset it. Further (R6/R7): no encoder result aliases package-level storage; every encoder scratch buffer is at least as long as the most that can be written into it for all field lengths (linear bounds, followed into helpers, with recognition of a dominating fit test); the Append table is also evaluated at the buffer states around \"exactly enough room\"; the DBI reader reports io.EOF only at the end of the data. Every round of the KV and DBI field loops compares the cursor with the data length before the next tag is read (a message may end after any field, also an unknown one); every DBI of a snapshot is written and every field of a message is looked at; entries are decoded into a zero KV.",
+		Explanation: staticNote + "Decides the structural conditions of a lossless, wire-compatible codec: (R1) for KV, DBI, Snapshot and Meta the (field number, wire type) tables of the generated reference schema (struct tags), of the Field* constants, of the hand-written writers (EncodeTag sites) and of the hand-written readers (switch cases with expectWT / get* helpers) are equal; (R2) the size phase of DBI.Append declares exactly what the emit phase writes and reserves exactly header+message, interpreted on the extracted events for lengths across every varint boundary, and the buffer has capacity after growth; (R3) every decode/skip call in the cursor parsers reads from the buffer sliced at the advancing cursor; (R4) unknown fields are skipped by wire type in every reader; (R5) decoders merge into their receiver and never reset it. Further (R6/R7): no encoder result aliases package-level storage; every encoder scratch buffer is at least as long as the most that can be written into it for all field lengths (linear bounds, followed into helpers, with recognition of a dominating fit test); the Append table is also evaluated at the buffer states around \"exactly enough room\"; the DBI reader reports io.EOF only at the end of the data. Every round of the KV and DBI field loops compares the cursor with the data length before the next tag is read (a message may end after any field, also an unknown one); every DBI of a snapshot is written and every field of a message is looked at; entries are decoded into a zero KV. LoadData collects the decompressed bytes from the gzip reader itself until it reports the end (no bounded or wrapped source that stops early without an error).",
 		NotDecided:  "Round-trip equality for all inputs (byte content of the emitted fields is not interpreted); the csproto decoder used for the outer message; gzip.",
 		Assumptions: []string{"csproto.EncodeTag/EncodeVarint write SizeOfVarint bytes; copy copies len(src) bytes into the reserved space"},
 	}, func(c *Check) {
